@@ -212,3 +212,13 @@ class Enc(Case):
 
 for c in (Tables, TablesHistory, Enc):
     register(c())
+
+
+# ---- lemmas for the stubs this check relies on (see props.common.Borrowed) ----
+from props.common import Borrowed, REGISTRY
+from props import c01 as _c01
+register(Borrowed(REGISTRY['C01.reverse_byte'], 'C18', 'reverse_byte'))
+from props import c02 as _c02
+register(Borrowed(REGISTRY['C02.leaf'], 'C18', 'des_sbox', keep=lambda sh: sh.get('fn') == 'des.S'))
+from props import c08 as _c08
+register(Borrowed(REGISTRY['C08.unary'], 'C18', 'hw', keep=lambda sh: sh.get('op') == 'hw'))
